@@ -14,13 +14,13 @@ Claims, for every scalar k and every stub result:
  (total)    every path returns; no panic is reachable (the leftover assert!(false) was one);
  (fallback) when a reduction level reports a too large basis the result is
             (low128(v0), low128(v1)) of lagrange256_vartime(k, n, 254) applied to the de-Montgomerised scalar;
- (tail)     otherwise c1 = u1 (the stub's 128-bit result) and c0 = low128(X) where X is a candidate of least
-            absolute value among  norm(D), norm(D + KS), norm(D - KS)   [norm: representative in -(n-1)/2..(n-1)/2],
+ (tail)     otherwise c1 = u1 (the stub's 128-bit result) and c0 = low128(X) where X is one of the candidates
+            norm(D), norm(D + KS), norm(D - KS)   [norm: representative in -(n-1)/2..(n-1)/2; they are k*(u1 + b*2^128), b = 0, 1, -1],
             the first one being excluded when u1 = 0  (then the true denominator is +/-2^128 and c0 = c1 = 0
-            would be the forbidden zero pair).
+            would be the forbidden zero pair), and |X| <= 2^128 or |X| is least among the allowed candidates.
 Hence, with the Lagrange contract |true u1| < 1.075*2^128, true u1 = u1 + b*2^128, the returned pair satisfies the
 property's c0' = k*c1' (mod n), c1' != 0, each corrected by at most +/-2^128."""
-import time, random
+import time, random, os
 from engines.llsym.build import build, Driver
 from engines.llsym import terms as T
 from engines.llsym.llexec import Ptr, ExecError, PanicReached
@@ -28,7 +28,9 @@ from engines.llsym.smt import BVEmitter, run_solver, parse_model, bvc
 from vlib.common import Obligation, log
 from . import fields as F
 from . import glue
-from .lhelp import sym_run, rng, hexl, Path, _feasible, discover_cuts, model_inputs
+from .lhelp import sym_run, rng, hexl, Path, _feasible, discover_cuts, model_inputs, word_form
+from engines.llsym.intenc import IntEnc, Lin
+from engines.llsym import prove as PR
 
 HOST = "src/backend/w64/modint.rs"
 TYPES = {
@@ -136,31 +138,40 @@ class Cutter:
         self.nq = 0
 
     def try_cut(self, roots, varnames, u1names, anames):
-        """roots: terms; varnames: {name: width}; returns substituted roots"""
+        """roots: terms; varnames: {name: width}; returns the roots with the located product limbs replaced by
+        fresh variables (an over-approximation whatever the located nodes are; that they are the limbs of
+        D / KS is what the sampled executions show)"""
         todo = [k for k in ("D", "KS") if k not in self.vars]
-        if todo:
-            big = [x for x in roots if isinstance(x, T.Term)]
-            if big and len(T.topo(big)) > 400:
-                envs, vals = [], {"D": [], "KS": []}
-                for _ in range(6):
-                    env = {nm: self.r.getrandbits(w) for nm, w in varnames.items()}
-                    # keep a < n
-                    a = self.r.randrange(self.n)
-                    for i, nm in enumerate(anames):
-                        env[nm] = (a >> (64 * i)) & (2**64 - 1)
-                    u1 = env.get(u1names[0], 0) | (env.get(u1names[1], 0) << 64)
-                    k = a * pow(R, -1, self.n) % self.n
-                    envs.append(env)
-                    vals["D"].append(_signed(u1, 128) * k % self.n)
-                    vals["KS"].append((1 << 128) * k % self.n)
-                for key in todo:
-                    res = discover_cuts(big, envs, vals[key], 4, 64, key.lower() + "_")
-                    if res is None:
-                        continue
-                    prim, vs, mapping, nq = res
-                    self.nq += nq
-                    self.vars[key] = vs
-                    self.mapping.update(mapping)
+        big = [x for x in roots if isinstance(x, T.Term)]
+        if todo and big:
+            envs, vals = [], {"D": [], "KS": []}
+            for _ in range(6):
+                env = {nm: self.r.getrandbits(w) for nm, w in varnames.items()}
+                a = self.r.randrange(self.n)
+                for i, nm in enumerate(anames):
+                    env[nm] = (a >> (64 * i)) & (2**64 - 1)
+                u1 = env.get(u1names[0], 0) | (env.get(u1names[1], 0) << 64)
+                k = a * pow(R, -1, self.n) % self.n
+                envs.append(env)
+                vals["D"].append(_signed(u1, 128) * k % self.n)
+                vals["KS"].append((1 << 128) * k % self.n)
+            for key in todo:
+                # the LAST node (topological order) holding each limb on every sample: the normalised result of the
+                # Montgomery multiplication (an earlier node with the same sampled values is the not-yet-normalised sum)
+                memos = [T.evaluate_all(big, e) for e in envs]
+                sigs = {tuple((v >> (64 * k)) & (2**64 - 1) for v in vals[key]): k for k in range(4)}
+                found = [None] * 4
+                for t in T.topo(big):
+                    if t.w == 64 and t.op != "var":
+                        k = sigs.get(tuple(m[t.id] for m in memos))
+                        if k is not None:
+                            found[k] = t
+                if any(f is None or not isinstance(f, T.Term) or f.op == "var" for f in found):
+                    continue
+                vs = [T.var("%s_%d" % (key.lower(), k), 64) for k in range(4)]
+                self.vars[key] = vs
+                for f, v in zip(found, vs):
+                    self.mapping[f.id] = v
         if not self.mapping:
             return list(roots)
         return T.substitute(list(roots), self.mapping)
@@ -182,7 +193,8 @@ def check_type(built, lays, tag, timeout):
     ob_f = Obligation("default:%s.split_vartime:fallback" % tag, "L", fn, ob_t.bounds,
                       "fallback paths return the truncated lagrange256_vartime(k, n, 254) result of the de-Montgomerised scalar")
     ob_s = Obligation("default:%s.split_vartime:tail" % tag, "L", fn, ob_t.bounds,
-                      "c1 = u1; c0 = low 128 bits of a least-|.| candidate among norm(D), norm(D+KS), norm(D-KS), D excluded when u1 = 0")
+                      "c1 = u1; c0 = low 128 bits of a candidate X among norm(D), norm(D+KS), norm(D-KS) (D excluded when u1 = 0) "
+                      "with |X| <= 2^128 or |X| least among the allowed candidates")
     t0 = time.time()
     stubs = Stubs(lays)
     cutter = Cutter(n, tag)
@@ -201,10 +213,6 @@ def check_type(built, lays, tag, timeout):
             i = pos[0]
             pos[0] += 1
             # names / widths of the variables this path has seen so far
-            s192 = [cc for t_, cc in rec.calls if t_ == "s192"]
-            if s192:
-                u1n = [_vname(s192[0]["res"]["u0"]), _vname(s192[0]["res"]["u1"])]
-                c = cutter.try_cut([c], _allvars(rec), u1n, anames)[0]
             if not isinstance(c, T.Term):
                 path.conds.append((c, 1 if c else 0))
                 return 1 if c else 0
@@ -212,9 +220,13 @@ def check_type(built, lays, tag, timeout):
                 path.conds.append((c, dec[i]))
                 return dec[i]
             sides = []
+            small = len(T.topo([c])) < 60 and all(len(T.topo([cc])) < 60 for cc, _ in path.conds if isinstance(cc, T.Term))
             for val in (1, 0):
-                st, _ = _feasible(path.conds + [(c, val)], 20)
-                nq += 1
+                if small:
+                    st, _ = _feasible(path.conds + [(c, val)], 5)
+                    nq += 1
+                else:
+                    st = "unknown"      # data-dependent test of the tail: both sides are explored, decided after the cut
                 if st != "unsat":
                     sides.append(val)
             if not sides:
@@ -288,68 +300,15 @@ def check_type(built, lays, tag, timeout):
             tail_problem = "a returning path calls neither lagrange192_spec_vartime nor the generic fallback"
             continue
         u0, u1 = s192[0]["res"]["u0"], s192[0]["res"]["u1"]
-        outs_c = cutter.try_cut(list(out), _allvars(p.rec), [_vname(u0), _vname(u1)], anames)
-        if "D" not in cutter.vars:
-            tail_problem = "the product u1*k was not located in the DAG (cut discovery failed)"
-            continue
-        Dv = cutter.vars["D"]
-        em = BVEmitter()
-        pc = ["(= %s %s)" % (em.ref(c, 1), "#b1" if v else "#b0") for c, v in p.conds if isinstance(c, T.Term)]
-        W = 258
-        nn = bvc(n, W)
-        half = bvc((n - 1) // 2, W)
-
-        def zx(e, w):
-            return "((_ zero_extend %d) %s)" % (W - w, e)
-        D = zx(wide(em, Dv), 256)
-        pre = ["(bvult %s %s)" % (D, nn)]
-        have_ks = "KS" in cutter.vars
-        if have_ks:
-            KS = zx(wide(em, cutter.vars["KS"]), 256)
-            pre.append("(bvult %s %s)" % (KS, nn))
-        # signed normalisation, as (value, abs) in W-bit two's complement
-
-        def norm(x):
-            return "(ite (bvugt %s %s) (bvsub %s %s) %s)" % (x, half, x, nn, x)
-
-        def absv(x):
-            return "(ite (bvugt %s %s) (bvsub %s %s) %s)" % (x, half, nn, x, x)
-        cand = [("d", D)]
-        if have_ks:
-            E = "(let ((s (bvadd %s %s))) (ite (bvuge s %s) (bvsub s %s) s))" % (D, KS, nn, nn)
-            Fm = "(ite (bvuge %s %s) (bvsub %s %s) (bvsub (bvadd %s %s) %s))" % (D, KS, D, KS, D, nn, KS)
-            cand += [("e", E), ("f", Fm)]
-        U1 = wide(em, [u0, u1])
-        c0 = wide(em, outs_c[0:2])
-        c1 = wide(em, outs_c[2:4])
-        u1z = "(= %s %s)" % (U1, bvc(0, 128))
-        alts = []
-        for nm, x in cand:
-            allowed = "true" if nm != "d" else "(not %s)" % u1z
-            least = []
-            for nm2, y in cand:
-                if nm2 == nm:
-                    continue
-                al2 = "true" if nm2 != "d" else "(not %s)" % u1z
-                least.append("(=> %s (bvule %s %s))" % (al2, absv(x), absv(y)))
-            alts.append("(and %s (= %s ((_ extract 127 0) %s)) %s)" % (allowed, c0, norm(x), " ".join(least) if least else "true"))
-        if not have_ks:
-            # early-exit path: D and only D was computed; the other candidates exist mathematically: the claim on this path is
-            # that the early exit is only taken when u1 != 0 and |norm D| <= 2^128 (then D is the unique least candidate
-            # because the others differ from it by +/-2^128*k mod n ... not decidable without KS): state the weaker claim
-            goal = "(and (= %s %s) (not %s) (= %s ((_ extract 127 0) %s)) (bvule %s %s))" % (
-                c1, U1, u1z, c0, norm(D), absv(D), bvc(1 << 128, W))
-        else:
-            goal = "(and (= %s %s) (or %s))" % (c1, U1, " ".join(alts))
-        v, mod, _ = run_solver(em.script(pc + pre + ["(not %s)" % goal]), "z3", timeout)
-        qt += 1
-        if v == "unsat":
+        verdict, info, q = decide_tail(p, out, [u0, u1], n, tag, timeout)
+        qt += q
+        if verdict == "ok":
             tail_ok.append(p)
-        elif v == "sat":
-            tail_problem = ("counterexample", p, parse_model(mod), have_ks)
+        elif verdict == "cex":
+            tail_problem = ("counterexample", p, info, True)
             break
         else:
-            tail_problem = "solver: %s on a tail path" % v
+            tail_problem = info
     nq += qt
     if fb_problem:
         ob_f.unknown(fb_problem)
@@ -362,14 +321,272 @@ def check_type(built, lays, tag, timeout):
         ob_s.unknown("candidate selection differs from the least-|.| rule on a path of the stubbed, cut model "
                      "(model: u1 = %s); native confirmation: see replay obligations" % _model_u1(model))
         ob_s.candidate = model
+        ob_s.candidate["have_ks"] = int(have_ks)
+        ob_s.candidate["nconds"] = len(p.conds)
     elif tail_problem:
         ob_s.unknown(tail_problem)
     elif not tail_ok:
         ob_s.unknown("no tail path explored (vacuous)")
     else:
-        ob_s.ok("path-forking symbolic execution with stubs and product cuts, %d tail paths; z3-bv x%d (+%d cut lemmas)"
-                % (len(tail_ok), qt, cutter.nq), time.time() - t0, qt + cutter.nq)
+        ob_s.ok("path-forking symbolic execution with stubs; staged cuts (products, normalised candidates, absolute values) "
+                "each proved by z3-bv, then the selection rule; %d tail paths; z3-bv x%d" % (len(tail_ok), qt), time.time() - t0, qt)
     return [ob_t, ob_f, ob_s]
+
+
+M256 = (1 << 256) - 1
+
+
+def decide_tail(p, out, uv, n, tag, timeout):
+    """staged cut of one tail path; returns (verdict, info, queries), verdict in ok / cex / unknown"""
+    half = (n - 1) // 2
+    r = random.Random("tail" + tag)
+    roots = list(out) + [c for c, v in p.conds]
+    decisions = [v for c, v in p.conds]
+    varn = _allvars(p.rec)
+    # sampled executions: values of every input / stub variable, and of the quantities to locate
+    envs, Q = [], []
+    for it in range(96):
+        env = {nm: r.getrandbits(w) for nm, w in varn.items()}
+        if it % 3 == 1:
+            env[_vname(uv[1])] = r.choice([0, 2**64 - 1])        # small |u1|
+        env[_vname(uv[0])] |= 1                                  # odd: invertible, so that D can be chosen
+        U = env[_vname(uv[0])] | (env[_vname(uv[1])] << 64)
+        # D is chosen (boundary limb patterns make borrows / carries of the normalisation steps visible), k follows
+        D = r.randrange(n)
+        if it % 4 in (1, 2):
+            limbs = [r.choice([0, 1, 2**64 - 1, r.getrandbits(64), r.getrandbits(8)]) for _ in range(4)]
+            D = sum(l << (64 * i) for i, l in enumerate(limbs)) % n
+        if it % 4 == 2:
+            D = (half + 1 + r.getrandbits(60) + (r.getrandbits(64) << 128)) % n
+        k = D * pow(_signed(U, 128) % n, -1, n) % n
+        a = k * R % n
+        for i in range(4):
+            env["a%d" % i] = (a >> (64 * i)) & (2**64 - 1)
+        assert _signed(U, 128) * k % n == D
+        KS = (1 << 128) * k % n
+
+        def nrm(x):
+            return x - n if x > half else x
+        q = {"D": D, "KS": KS, "eS": (D + KS) % n, "fS": (D - KS) % n, "dN": nrm(D) & M256, "eN": nrm((D + KS) % n) & M256, "fN": nrm((D - KS) % n) & M256,
+             "dA": abs(nrm(D)), "eA": abs(nrm((D + KS) % n)), "fA": abs(nrm((D - KS) % n))}
+        envs.append(env)
+        Q.append(q)
+    nq = 0
+    fresh = {}
+    lemmas = []       # SMT assumptions over the fresh variables (proved below, stage by stage)
+    W = 256
+
+    def wv(em, vs):
+        return wide(em, vs)
+
+    def bnorm(x):      # x: 256-bit SMT value below n -> two's complement 256-bit normalised value
+        return "(ite (bvugt %s %s) (bvsub %s %s) %s)" % (x, bvc(half, W), x, bvc(n, W), x)
+
+    def addn(x, y):    # (x + y) mod n for x, y < n, via 257 bits
+        s_ = "(bvadd ((_ zero_extend 1) %s) ((_ zero_extend 1) %s))" % (x, y)
+        return "((_ extract 255 0) (ite (bvuge %s %s) (bvsub %s %s) %s))" % (s_, bvc(n, 257), s_, bvc(n, 257), s_)
+
+    def subn(x, y):
+        return "(ite (bvuge %s %s) (bvsub %s %s) (bvadd (bvsub %s %s) %s))" % (x, y, x, y, x, y, bvc(n, W))
+
+    def babs(x):
+        return "(ite (bvslt %s %s) (bvneg %s) %s)" % (x, bvc(0, W), x, x)
+    specs = {
+        "D": None, "KS": None,
+        "dN": lambda em: bnorm(wv(em, fresh["D"])),
+        "eS": lambda em: addn(wv(em, fresh["D"]), wv(em, fresh["KS"])),
+        "fS": lambda em: subn(wv(em, fresh["D"]), wv(em, fresh["KS"])),
+        "eN": lambda em: bnorm(wv(em, fresh["eS"])),
+        "fN": lambda em: bnorm(wv(em, fresh["fS"])),
+        "dA": lambda em: babs(wv(em, fresh["dN"])),
+        "eA": lambda em: babs(wv(em, fresh["eN"])),
+        "fA": lambda em: babs(wv(em, fresh["fN"])),
+    }
+    deps = {"dN": ["D"], "eS": ["D", "KS"], "fS": ["D", "KS"], "eN": ["eS"], "fN": ["fS"], "dA": ["dN"], "eA": ["eN"], "fA": ["fN"]}
+    intspec = {"eS": lambda d_, k_: "(ite (>= (+ %s %s) %d) (- (+ %s %s) %d) (+ %s %s))" % (d_, k_, n, d_, k_, n, d_, k_),
+               "fS": lambda d_, k_: "(ite (>= %s %s) (- %s %s) (+ (- %s %s) %d))" % (d_, k_, d_, k_, d_, k_, n)}
+
+    def base_assume(em):
+        asr = []
+        for k_ in ("D", "KS"):
+            if k_ in fresh:
+                asr.append("(bvult %s %s)" % (wv(em, fresh[k_]), bvc(n, W)))
+        return asr
+    for stage in ("D", "KS", "dN", "eS", "fS", "eN", "fN", "dA", "eA", "fA"):
+        if any(d_ not in fresh for d_ in deps.get(stage, [])):
+            continue
+        big = [x for x in roots if isinstance(x, T.Term)]
+        if not big:
+            break
+        memos = [T.evaluate_all(big, e) for e in envs]
+        sigs = {tuple((q[stage] >> (64 * k)) & (2**64 - 1) for q in Q): k for k in range(4)}
+        if len(sigs) < 4:
+            continue
+        found = [None] * 4
+        for t in T.topo(big):
+            if t.w == 64 and t.op != "var":
+                k = sigs.get(tuple(m[t.id] for m in memos))
+                if k is not None:
+                    found[k] = t
+        if any(f is None for f in found):
+            continue
+        vs = [T.var("%s_%d" % (stage, k), 64) for k in range(4)]
+        if os.environ.get("VERIF_DEBUG") == "2" and stage == "D":
+            def show(t, d):
+                if not isinstance(t, T.Term):
+                    return hex(t)
+                if d == 0 or t.op == "var":
+                    return "%s#%d" % (t.op if t.op != "var" else t.aux[0], t.id)
+                return "%s#%d(%s)" % (t.op, t.id, ", ".join(show(a, d - 1) for a in t.args))
+            for f in found:
+                log("   " + show(f, 4)[:600])
+        if os.environ.get("VERIF_DEBUG"):
+            log("[C11 tail] stage %s: nodes %s, cone %d, vars %s" % (stage, [f.id for f in found], len(T.topo(found)),
+                                                                   sorted(set(v_.aux[0] for v_ in T.variables(found)))[:14]))
+        if stage in intspec:
+            # modular addition / subtraction: limb carries are linear integer arithmetic (z3, LIA)
+            enc = IntEnc()
+            node = word_form(enc, found, 64).smt()
+            d_ = word_form(enc, fresh["D"], 64).smt()
+            k_ = word_form(enc, fresh["KS"], 64).smt()
+            r_ = PR.prove(enc, "(= %s %s)" % (node, intspec[stage](d_, k_)),
+                          extra=["(< %s %d)" % (d_, n), "(< %s %d)" % (k_, n)], timeout=timeout)
+            nq += 1
+            if r_.status != "proved":
+                continue
+        elif specs[stage] is not None:
+            # lemma: the located nodes (terms over the earlier fresh variables) equal the specification
+            em = BVEmitter()
+            node = wide(em, found)
+            v, _, _ = run_solver(em.script(base_assume(em) + lemmas_for(em, lemmas, specs) + ["(distinct %s %s)" % (node, specs[stage](em))],
+                                           get_model=False), "z3", timeout)
+            nq += 1
+            if v != "unsat":
+                continue          # not proved: leave these nodes uncut (sound; the final query is then harder)
+        fresh[stage] = vs
+        if specs[stage] is not None:
+            lemmas.append((stage, vs))
+        mapping = {f.id: v_ for f, v_ in zip(found, vs)}
+        roots = T.substitute(roots, mapping)
+        for e, q in zip(envs, Q):
+            for k in range(4):
+                e["%s_%d" % (stage, k)] = (q[stage] >> (64 * k)) & (2**64 - 1)
+    if "D" not in fresh:
+        return "unknown", "the product u1*k was not located in the DAG (cut discovery failed)", nq
+    outs_c = roots[:len(out)]
+    conds_c = list(zip(roots[len(out):], decisions))
+    if any((not isinstance(c, T.Term)) and (1 if c else 0) != v for c, v in conds_c):
+        return "ok", None, nq
+    em = BVEmitter()
+    pc = ["(= %s %s)" % (em.ref(c, 1), "#b1" if v else "#b0") for c, v in conds_c if isinstance(c, T.Term)]
+    U1 = wide(em, uv)
+    c0 = wide(em, outs_c[0:2])
+    c1 = wide(em, outs_c[2:4])
+    u1z = "(= %s %s)" % (U1, bvc(0, 128))
+    T128 = bvc(1 << 128, W)
+    MT128 = bvc((1 << 256) - (1 << 128), W)
+    have_ks = "KS" in fresh
+    full = all(k_ in fresh for k_ in (("dN", "dA", "eN", "eA", "fN", "fA") if have_ks else ("dN",)))
+    if full:
+        # every candidate and absolute value is a proved cut: the selection rule is decided over free values
+        # N (two's complement candidates) and A (their absolute values); A = |N| are the lemmas proved above
+        asr = []
+
+        def small(x):
+            return "(and (bvsle %s %s) (bvsge %s %s))" % (x, T128, x, MT128)
+        cands = [("d", wv(em, fresh["dN"]), wv(em, fresh["dA"]) if have_ks else None, "(not %s)" % u1z)]
+        if have_ks:
+            cands.append(("e", wv(em, fresh["eN"]), wv(em, fresh["eA"]), "true"))
+            cands.append(("f", wv(em, fresh["fN"]), wv(em, fresh["fA"]), "true"))
+            alts = []
+            for nm, x, a_, allowed in cands:
+                least = " ".join("(=> %s (bvule %s %s))" % (al2, a_, a2) for nm2, y, a2, al2 in cands if nm2 != nm)
+                alts.append("(and %s (= %s ((_ extract 127 0) %s)) (or %s (and %s)))" % (allowed, c0, x, small(x), least))
+            goal = "(and (= %s %s) (or %s))" % (c1, U1, " ".join(alts))
+        else:
+            x = cands[0][1]
+            goal = "(and (= %s %s) (not %s) (= %s ((_ extract 127 0) %s)) %s)" % (c1, U1, u1z, c0, x, small(x))
+    else:
+        asr = base_assume(em) + lemmas_for(em, lemmas, specs)
+
+        def val(stage, spec_fn):
+            return wv(em, fresh[stage]) if stage in fresh else spec_fn(em)
+        cands = [("d", val("dN", specs["dN"]), "(not %s)" % u1z)]
+        if have_ks:
+            def chain(nm):
+                if nm + "N" in fresh:
+                    return wv(em, fresh[nm + "N"])
+                sx = wv(em, fresh[nm + "S"]) if nm + "S" in fresh else specs[nm + "S"](em)
+                return bnorm(sx)
+            cands.append(("e", chain("e"), "true"))
+            cands.append(("f", chain("f"), "true"))
+        if not have_ks:
+            x = cands[0][1]
+            goal = "(and (= %s %s) (not %s) (= %s ((_ extract 127 0) %s)) (bvule %s %s))" % (c1, U1, u1z, c0, x, babs(x), T128)
+        else:
+            alts = []
+            for nm, x, allowed in cands:
+                least = " ".join("(=> %s (bvule %s %s))" % (al2, babs(x), babs(y)) for nm2, y, al2 in cands if nm2 != nm)
+                alts.append("(and %s (= %s ((_ extract 127 0) %s)) (or (bvule %s %s) (and %s)))" % (allowed, c0, x, babs(x), T128, least))
+            goal = "(and (= %s %s) (or %s))" % (c1, U1, " ".join(alts))
+    v, mod, _ = run_solver(em.script(pc + asr + ["(not %s)" % goal]), "z3", timeout)
+    nq += 1
+    if v == "unsat":
+        return "ok", None, nq
+    if v == "sat":
+        return "cex", parse_model(mod), nq
+    return "unknown", "solver: %s on the selection rule of a tail path (stages cut: %s)" % (v, ",".join(fresh)), nq
+
+
+def lemmas_for(em, lemmas, specs=None):
+    out = []
+    for stage, vs in lemmas:
+        fn = (specs or lemmas_for.specs)[stage]
+        out.append("(= %s %s)" % (wide(em, vs), fn(em)))
+    return out
+
+
+def _model_is_real(model, conds_c, outs_c, Dv, KSv, uv, n):
+    """evaluate the cut DAG concretely under the solver's model: path condition must hold and the
+    selection rule must really be violated"""
+    env = {}
+    for k, v in model.items():
+        env[k[2:] if k.startswith("x_") else k] = v
+    names = set()
+    for t in T.variables([c for c, _ in conds_c if isinstance(c, T.Term)] + [o for o in outs_c if isinstance(o, T.Term)]):
+        names.add(t.aux[0])
+    for nm in names:
+        env.setdefault(nm, 0)
+    for c, v in conds_c:
+        if isinstance(c, T.Term) and T.evaluate([c], env)[0] != v:
+            return False
+    o = T.evaluate(list(outs_c), env)
+    c0 = o[0] | (o[1] << 64)
+    c1 = o[2] | (o[3] << 64)
+    D = sum(env[_vname(x)] << (64 * i) for i, x in enumerate(Dv))
+    U = sum(env[_vname(x)] << (64 * i) for i, x in enumerate(uv))
+    if D >= n:
+        return False
+    half = (n - 1) // 2
+
+    def norm(x):
+        return x - n if x > half else x
+    cands = [(norm(D), U != 0)]
+    if KSv is not None:
+        KS = sum(env[_vname(x)] << (64 * i) for i, x in enumerate(KSv))
+        if KS >= n:
+            return False
+        cands += [(norm((D + KS) % n), True), (norm((D - KS) % n), True)]
+    if c1 != U:
+        return True
+    allowed = [x for x, ok in cands if ok]
+    if not allowed:
+        return True
+    m = min(abs(x) for x in allowed)
+    good = any((x % (1 << 128)) == c0 and (abs(x) <= (1 << 128) or abs(x) == m) for x in allowed)
+    if KSv is None:
+        good = U != 0 and (cands[0][0] % (1 << 128)) == c0 and abs(cands[0][0]) <= (1 << 128)
+    return not good
 
 
 def _vname(v):
@@ -387,3 +604,101 @@ def _allvars(rec):
 def _model_u1(model):
     ks = sorted(k for k in model if k.startswith("s192_u"))
     return ", ".join("%s=%#x" % (k, model[k]) for k in ks)
+
+
+# ---------------------------------------------------------------------------------------------
+# closed cases replayed on the native build (regression corpus: the inputs of the defects repaired by
+# 4b88384 / 20901b9 / 354110a and the families they belong to); also the replay step of a solver model
+
+NMAX = int((1 << 254) / 1.1547005383792517)      # floor(2^254 / (2/sqrt(3)))
+
+WITNESS = {
+    "scp256": [0x6ba97ce16e3e7cd3a3e883f0bd2e86b7e08191e753bcb66e1de33ae771fbeb5f],
+    "sc25519": [0x086efa9b0d4e87b9d1f002536530fbae8521e464088b06774e8fd40b7fdbb115, (1 << 193) + (1 << 63), (1 << 197) + (1 << 63)],
+}
+
+
+def corpus(tag, n):
+    ks = [0, 1, 2, n - 1, n - 2, 1 << 127, 1 << 128, (1 << 128) + 1, n >> 1, (n >> 1) + 1]
+    inv = pow(1 << 128, -1, n)
+    for j in (1, 3, 5, 7, 9, 11, 13, 15, 2, 4):
+        ks += [j * inv % n, (-j * inv) % n]
+    for t in range(45, 64):
+        ks += [n >> t, (n >> t) + 1]
+    ks += [w % n for w in WITNESS.get(tag, [])]
+    r = rng("c11corpus", tag)
+    for _ in range(24):
+        c1 = r.getrandbits(r.choice([20, 50, 64, 100, 127, 128]))
+        c0 = r.getrandbits(r.choice([20, 64, 100, 127]))
+        if c1 % n:
+            ks.append(c0 * pow(c1, -1, n) % n)
+    return ks
+
+
+def contract_ok(k, c0, c1, n):
+    c0s, c1s = _signed(c0, 128), _signed(c1, 128)
+    if k == 0:
+        return (c0s, c1s) == (0, 1)
+    rng_ = (-1, 0, 1) if n > NMAX else (0,)
+    for a in rng_:
+        for b in rng_:
+            C0, C1 = c0s + a * (1 << 128), c1s + b * (1 << 128)
+            if C1 != 0 and (C0 - k * C1) % n == 0:
+                return True
+    return False
+
+
+def check_corpus(built, tag):
+    from .lhelp import native_crashes
+    ty, n = TYPES[tag]
+    drv = "drv_%s_split" % tag
+    ob = Obligation("default:%s.split_vartime:corpus" % tag, "ground", ["backend::w64::modint::ModInt256::split_vartime [%s]" % ty],
+                    "closed cases: k = j/2^128, n >> t, small unbalanced fractions, earlier witnesses",
+                    "native run returns, and (c0, c1) satisfies c0' = k*c1' (mod n), c1' != 0, corrections at most +/-2^128 "
+                    "(none below the documented modulus bound); 0 -> (0, 1)")
+    t0 = time.time()
+    ks = corpus(tag, n)
+    for k in ks:
+        a = k * R % n
+        inputs = {"a": [(a >> (64 * i)) & (2**64 - 1) for i in range(4)]}
+        crashed, err = native_crashes(built, drv, inputs)
+        if crashed:
+            return [ob.fail({"key": "modint.split_vartime.panic", "inputs": {"k": hex(k), "type": ty}, "native_stderr": err[-300:],
+                             "found_by": "native replay of the regression corpus"}, "native", time.time() - t0, 0)]
+        o = built.native(drv, inputs)["out"]
+        c0, c1 = o[0] | (o[1] << 64), o[2] | (o[3] << 64)
+        if not contract_ok(k, c0, c1, n):
+            return [ob.fail({"key": "modint.split_vartime.contract", "inputs": {"k": hex(k), "type": ty},
+                             "native": {"c0": hex(c0), "c1": hex(c1)},
+                             "found_by": "native replay of the regression corpus"}, "native", time.time() - t0, 0)]
+    ob.ok("native replay x%d" % len(ks), time.time() - t0, 0, syntactic=True)
+    return [ob]
+
+
+def obligations(tier, only=None):
+    """called by props/C11.py"""
+    tags = list(TYPES) if tier == "thorough" else QUICK
+    built = build(drivers(tags), tag="C11-split-cut", cut=True)
+    obs = []
+    try:
+        lays = discover_layouts(built)
+        from vlib.par import pmap
+        from vlib.common import NCPU
+
+        def work(tg):
+            T.reset()
+            res = check_type(built, lays, tg, 60 if tier == "quick" else 300)
+            cor = check_corpus(built, tg)
+            # a model of the cut, stubbed tail that the corpus does not reproduce stays inconclusive; a corpus failure is
+            # the natively confirmed violation
+            return res + cor
+        for tg, (st, val) in zip(tags, pmap(work, tags, nproc=min(NCPU, len(tags)), timeout=3600)):
+            if st == "ok":
+                obs.extend(val)
+            else:
+                o = Obligation("default:%s.split_vartime" % tg, "L")
+                o.unknown("%s: %s" % (st, str(val)[-300:]))
+                obs.append(o)
+    finally:
+        built.close()
+    return obs
